@@ -53,7 +53,7 @@ def _case(draw, size=1):
         spec["pad"] = draw(st.one_of(st.none(), st.just(end + draw(st.integers(0, 40)))))
         seqs.append(spec)
     return {"seqs": seqs, "receiver": draw(st.sampled_from(["first", "fresh"])),
-            "perm": draw(st.permutations(list(range(k))))}
+            "perm": draw(st.permutations(list(range(k)))), "twice": draw(st.integers(0, 5)) == 0}
 
 
 def strategy(params, shard, nshards):
@@ -61,8 +61,10 @@ def strategy(params, shard, nshards):
     return _case(size=params.get("size", 1) if shard % 2 else 1)
 
 
-def _merge(specs, receiver):
+def _merge(specs, receiver, twice=False):
     seqs = [build.sequence(s) for s in specs]
+    if twice:
+        seqs.append(seqs[-1])        # the very same Sequence object handed in twice (its union is unchanged)
     if receiver == "first":
         r = seqs[0]
         r.merge(seqs[1:])
@@ -101,7 +103,7 @@ def check(case):
     out.nontrivial = len(specs) >= 2 and bool(pairs)
     out.label(f"inputs={len(specs)}", "receiver-" + case["receiver"], *(["overlapping-pair"] if pairs else []))
     try:
-        merged = _merge(specs, case["receiver"])
+        merged = _merge(specs, case["receiver"], case.get("twice", False))
     except Exception as e:
         out.fail("merge-raises", f"{type(e).__name__}: {e}")
         return out
@@ -142,7 +144,7 @@ def check(case):
     # order independence
     if len(specs) >= 2:
         try:
-            merged2 = _merge([specs[i] for i in case["perm"]], case["receiver"])
+            merged2 = _merge([specs[i] for i in case["perm"]], case["receiver"], case.get("twice", False))
             ev2, d2 = O.seq_events(merged2)
         except Exception as e:
             out.fail("merge-raises", f"permuted order: {type(e).__name__}: {e}")
